@@ -175,6 +175,14 @@ func (cls *CachedLocations) Open(ctx *Context, sys *System, name string, check b
 
 // Release checks whether the location has expired and, if so, closes
 // it.
+// forget drops the named location from the cache.
+func (cls *CachedLocations) forget(ctx *Context, name string) {
+	Log(INFO, ctx, "CachedLocations.forget", "name", name)
+	cls.Lock()
+	delete(cls.locs, name)
+	cls.Unlock()
+}
+
 func (cls *CachedLocations) Release(ctx *Context, sys *System, name string) error {
 	Log(INFO, ctx, "CachedLocations.Release", "name", name)
 	var err error
@@ -1175,6 +1183,13 @@ func (sys *System) DeleteLocation(ctx *Context, location string) error {
 		Log(WARN, ctx, "System.DeleteLocation", "location", location)
 		Metric(ctx, "System.DeleteLocation", "DeleteLocation", "location", location)
 		err = loc.Delete(ctx)
+		if err == nil {
+			// What we hold in the cache is the location that
+			// has just been deleted: the next request has to
+			// open (and, if we check that, find) the location
+			// anew, whatever the cache's TTL.
+			sys.CachedLocations.forget(ctx, location)
+		}
 	}
 	atomic.AddUint64(&sys.stats.TotalTime, uint64(Now()-then))
 	return sys.stats.IncErrors(err)
